@@ -8,6 +8,7 @@ from hypothesis import strategies as st
 from ..drive import drive
 from ..helpers import BOOL_HELPERS, discover_helpers, synth_args
 from ..jsongen import json_text, json_values
+from ..logmode import debug_logging
 from ..runner import Collector, Outcome, hyp_run, hyp_shrink
 
 ID = "C07"
@@ -176,7 +177,8 @@ def check(case: Dict[str, Any]) -> Outcome:
         item = {"jsonrpc": "2.0", "id": "$ID", "error": err}
         if case.get("typed"):
             item["$form"] = "typed"
-    res = drive(call, [(t_err, item, phase)])
+    with debug_logging(bool(case.get("debug_log"))):  # (the application may run with logging.basicConfig(level=DEBUG))
+        res = drive(call, [(t_err, item, phase)])
 
     out.nontrivial = (code not in NAMED) or has_data or msg is None
     out.key = {"target": target, "code": code, "message": msg, "data": case.get("data", "$absent")}
@@ -186,7 +188,7 @@ def check(case: Dict[str, Any]) -> Outcome:
         "data" if has_data else "nodata",
         "nomessage" if msg is None else "message",
         "bool-helper" if target in BOOL_HELPERS else "raising-helper",
-    ) + (("on-poll-boundary",) if not peer and case.get("t_err", 10) in (50, 100) else ()) + (("typed-class",) if case.get("typed") and msg is not None else ()) + (("peer-waiter",) if peer else ()) + tuple("opt:" + o for o in opts if target == "send_message")
+    ) + (("on-poll-boundary",) if not peer and case.get("t_err", 10) in (50, 100) else ()) + (("typed-class",) if case.get("typed") and msg is not None else ()) + (("peer-waiter",) if peer else ()) + tuple("opt:" + o for o in opts if target == "send_message") + (("logging:DEBUG",) if case.get("debug_log") else ())
 
     r = is_retryable_error(code)
     if not isinstance(r, bool):
@@ -275,6 +277,10 @@ def job_enum(col: Collector, seed: int, tier: str, shard: int, nshards: int) -> 
                     case = {"target": target, "code": code, "message": f"m{code}", "opts": opts_}
                     col.record(case, check(case))
             if code in NAMED:
+                for extra_ in ({}, {"message": None}, {"typed": True}, {"data": {"k": [None]}}, {"peer": True}):
+                    case = {"target": target, "code": code, "message": f"m{code}", "debug_log": True, **extra_}
+                    col.record(case, check(case))
+            if code in NAMED:
                 for typed_, peer_ in ((True, False), (False, True), (True, True)):
                     case = {"target": target, "code": code, "message": f"m{code}", "typed": typed_, "peer": peer_}
                     col.record(case, check(case))
@@ -314,6 +320,8 @@ def cases(draw):
         case["typed"] = True
     if draw(st.integers(0, 3)) == 0:
         case["peer"] = True
+    if draw(st.integers(0, 3)) == 0:
+        case["debug_log"] = True
     if target == "send_message" and draw(st.booleans()):
         case["opts"] = draw(st.lists(st.sampled_from(["token", "progress"]), min_size=1, max_size=2, unique=True))
     return case
